@@ -200,17 +200,18 @@ def c17(case, out):
         # SetBounds: results must follow the configured bounds, whatever was queried before
         lo2 = [l - 1.0 for l in lo]
         up2 = [u + 2.0 for u in up]
+        e3 = Evolvent(np.array(lo2, dtype=float), np.array(up2, dtype=float), N, m)
         for order in (0, 1, 2):
-            e2 = Evolvent(np.array(lo, dtype=float), np.array(up, dtype=float), N, m)
-            if order == 1:
-                e2.GetImage(x)
-            if order == 2:
-                e2.GetInverseImage(np.copy(keep))
-            blo, bup = np.array(lo2, dtype=float), np.array(up2, dtype=float)
-            e2.SetBounds(blo, bup)
-            blo[0] += 100.0          # the caller's arrays stay the caller's
-            e3 = Evolvent(np.array(lo2, dtype=float), np.array(up2, dtype=float), N, m)
             for q in ("GetImage", "GetInverseImage", "GetPreimages"):
+                # each query is the FIRST one after SetBounds on its own object (history order 0/1/2 before it)
+                e2 = Evolvent(np.array(lo, dtype=float), np.array(up, dtype=float), N, m)
+                if order == 1:
+                    e2.GetImage(x)
+                if order == 2:
+                    e2.GetInverseImage(np.copy(keep))
+                blo, bup = np.array(lo2, dtype=float), np.array(up2, dtype=float)
+                e2.SetBounds(blo, bup)
+                blo[0] += 100.0          # the caller's arrays stay the caller's
                 arg = x if q == "GetImage" else np.copy(e3.GetImage(x))
                 r2 = getattr(e2, q)(arg if q == "GetImage" else np.copy(arg))
                 r3 = getattr(e3, q)(arg if q == "GetImage" else np.copy(arg))
